@@ -161,6 +161,58 @@ output:
     - php: {namespace_root: Ex}
 `,
 		}},
+		{Name: "samelast", Reduced: true, Files: map[string]string{
+			"in/s.json": `{"$schema":"http://json-schema.org/draft-07/schema#","$ref":"#/definitions/Root","definitions":{
+ "Root":{"type":"object","properties":{"a":{"$ref":"#/definitions/X"},"b":{"$ref":"#/definitions/sub/X"},"c":{"$ref":"#/definitions/other/X"}}},
+ "X":{"type":"object","properties":{"p":{"type":"string"}}},
+ "sub":{"X":{"type":"object","properties":{"q":{"type":"integer"}}}},
+ "other":{"X":{"type":"object","properties":{"r":{"type":"boolean"}}}}
+}}`,
+			"pipeline.yaml": `inputs:
+  - jsonschema: {path: '%__config_dir%/in/s.json', package: same}
+output:
+  directory: './out/%l'
+  types: true
+  languages:
+    - go: {package_root: gen}
+    - typescript: {}
+`,
+		}},
+		{Name: "javaalias", Files: map[string]string{
+			"in/j.json": `{"$schema":"http://json-schema.org/draft-07/schema#","$ref":"#/definitions/Root","definitions":{
+ "Root":{"type":"object","properties":{"a":{"$ref":"#/definitions/AliasOne"},"b":{"$ref":"#/definitions/AliasTwo"},"s":{"$ref":"#/definitions/S1"},"t":{"$ref":"#/definitions/S2"},"c1":{"$ref":"#/definitions/C1"},"c2":{"$ref":"#/definitions/C2"},"c3":{"$ref":"#/definitions/C3"},"conf":{"type":"object","default":{"x":"1","y":"2","z":"3"},"additionalProperties":{"type":"string"}},"list":{"type":"array","items":{"oneOf":[{"type":"string"},{"type":"integer"}]}},"list2":{"type":"array","items":{"oneOf":[{"type":"string"},{"type":"boolean"}]}}}},
+ "AliasOne":{"$ref":"#/definitions/S1"},"AliasTwo":{"$ref":"#/definitions/S2"},
+ "S1":{"type":"object","properties":{"p":{"type":"string"}}},
+ "S2":{"type":"object","properties":{"q":{"type":"integer"}}},
+ "C1":{"type":"string","const":"one"},"C2":{"type":"integer","const":2},"C3":{"type":"boolean","const":true}
+}}`,
+			"tmpl/extra/NOTES.md": `{{ range $k, $v := .Extra }}{{ $k }}={{ $v }};{{ end }} {{ range .Packages }}{{ . }},{{ end }}`,
+			"repo/README.md":       `{{ range .Languages }}{{ . }} {{ end }}|{{ range $k, $v := .Extra }}{{ $k }}={{ $v }};{{ end }}`,
+			"pipeline.yaml": `parameters:
+  a: 'one'
+  b: '%a%-two'
+  c: '%b%-three'
+inputs:
+  - jsonschema: {path: '%__config_dir%/in/j.json', package: jay}
+output:
+  directory: './out/%l'
+  types: true
+  builders: true
+  converters: true
+  api_reference: true
+  repository_templates: '%__config_dir%/repo'
+  templates_data:
+    first: '%a%'
+    second: '%b%'
+    third: '%c%'
+  languages:
+    - java: {package_path: com.example}
+    - php: {namespace_root: Ex}
+    - typescript: {packages_import_map: {alpha: '%a%/alpha', beta: '%b%/beta'}}
+    - go: {package_root: gen, generate_json_marshaller: true, extra_files_templates: ['%__config_dir%/tmpl/extra']}
+    - python: {generate_json_marshaller: true}
+`,
+		}},
 		{Name: "small", Reduced: true, Files: map[string]string{
 			"in/a.json": schemaA,
 			"pipeline.yaml": `parameters:
